@@ -1,4 +1,5 @@
 import RpgpProofs.Ring
+import RpgpModel.Panics
 /-!
 # C18 — recipients: every intended recipient can decrypt, nobody else gets plaintext
 
@@ -16,7 +17,7 @@ proved in a guarded `_partial` form, and refuted on a concrete witness:
   check accepts garbage from a *foreign* SKESK for about one password in 64; the consistency check
   then reports a conflict and the legitimate recipient gets an error.
 
-(D18c — the SKESK loop stopping at the first password even with `abort_early = false` — has been
+(D18d — the SKESK loop stopping at the first password even with `abort_early = false` — has been
 repaired in the tree: the loop now `break`s only under `abort_early`, the model follows, and
 `crosscheck_conflict` holds at full strength for every kind of secret.)
 -/
@@ -406,7 +407,7 @@ theorem success_all_agree (P : Prims PLAIN ENC PW CT SCT) (ring : Ring PLAIN ENC
   find_ok_inv P ring esks ae hn pk sk hg k rr h
 
 /-- with `abort_early` off every presented message password is tried on every (non-skipped) SKESK and
-every session key so obtained takes part in the comparison (D18c repaired) -/
+every session key so obtained takes part in the comparison (D18d repaired) -/
 theorem every_password_cross_checked (P : Prims PLAIN ENC PW CT SCT) (ring : Ring PLAIN ENC PW)
     (pk : List (Pkesk CT)) (sk : List (Nat × SCT)) (ver : Nat) (ct : SCT) (he : (ver, ct) ∈ sk)
     (hskip : skSkip ring.gnupgAead ver = false) (pw : PW) (hpw : pw ∈ ring.messagePasswords) (k : SessionKey)
@@ -458,7 +459,7 @@ theorem crosscheck_conflict_no_plaintext (P : Prims PLAIN ENC PW CT SCT) (openEd
     decryptTheRing P openEd ring (.encrypted esks ed) false = .error (.find err) := by
   simp [decryptTheRing, h]
 
-/-- the former D18c witness: one SKESK that every password opens to its own key (v4 SKESK without
+/-- the former D18d witness: one SKESK that every password opens to its own key (v4 SKESK without
 encrypted session key), passwords 0 and 1 presented with `abort_early = false` — now a conflict;
 with `abort_early = true` the first password is used, as documented ("the first available session
 key will be used") -/
@@ -575,6 +576,46 @@ theorem skesk_v4_no_integrity (key : Bytes) (h : key.length = 16) :
     decodeSkeskV4 (1 :: key) = some (.v3_4 1 key) ∧ decodeSkeskV4 (3 :: key) = some (.v3_4 3 key) ∧
     decodeSkeskV4 (4 :: key) = some (.v3_4 4 key) := by
   refine ⟨?_, ?_, ?_, ?_, ?_⟩ <;> simp [decodeSkeskV4, h] <;> decide
+
+/-! ## "a wrong session key … never plaintext", session keys of every cipher: octet strings of another
+length than the cipher's key size are never handed to the cipher (repair D18d).  The ciphers themselves
+are outside the model; what is proved is that the CFB containers (SEIPDv1, SED) admit a v3/v4 session
+key only at exactly the key size of the cipher it names, so that the variable-length key schedules of
+Blowfish and CAST5 (which map `K ‖ K`, resp. `K` without trailing zero octets, to the schedule of `K`)
+are out of reach. -/
+
+theorem d18d_repaired : Gen.fixD18dCfbSessionKeyLenChecked = 1 := by decide
+
+theorem cfb_admits_only_the_key_size (sym keyLen : Nat) (h : Panics.cfbNew sym keyLen = .ok ()) :
+    keyLen = Panics.symKeySize sym ∧ Panics.symKeySize sym ≠ 0 := by
+  unfold Panics.cfbNew at h
+  rw [if_pos d18d_repaired] at h
+  unfold Panics.cfbNewFixed Panics.cfbNewPreFix at h
+  split at h
+  · cases h
+  · rename_i hk
+    split at h
+    · cases h
+    · rename_i h0
+      exact ⟨by simpa using hk, h0⟩
+
+theorem seipd1_session_key_has_the_key_size (alg keyLen : Nat)
+    (h : Panics.seipd1Admit (.v34 alg) keyLen = .ok ()) : keyLen = Panics.symKeySize alg :=
+  (cfb_admits_only_the_key_size alg keyLen (by simpa [Panics.seipd1Admit] using h)).1
+
+theorem sed_session_key_has_the_key_size (legacy : Bool) (alg keyLen : Nat)
+    (h : Panics.sedAdmit legacy (.v34 alg) keyLen = .ok ()) : keyLen = Panics.symKeySize alg := by
+  unfold Panics.sedAdmit at h
+  split at h
+  · cases h
+  · exact (cfb_admits_only_the_key_size alg keyLen h).1
+
+/-- regression witness: before the repair a 32-octet key was admitted for Blowfish (key size 16) and a
+15-octet key for CAST5 (key size 16); the repaired admission refuses both and still takes 16 octets -/
+theorem d18d_witness :
+    Panics.cfbNewPreFix Gen.symIdBlowfish 32 = .ok () ∧ Panics.cfbNewFixed Gen.symIdBlowfish 32 = .err ∧
+    Panics.cfbNewPreFix Gen.symIdCAST5 15 = .ok () ∧ Panics.cfbNewFixed Gen.symIdCAST5 15 = .err ∧
+    Panics.cfbNewFixed Gen.symIdBlowfish 16 = .ok () ∧ Panics.cfbNewFixed Gen.symIdCAST5 16 = .ok () := by decide
 
 /-! ## non-vacuity and concrete evaluations -/
 
